@@ -744,7 +744,7 @@ fn run_once(cx: &Cx, rep: &mut Report, su: &Setup, hist: &Hist, check: bool) -> 
     if scheme == SchemeType::CKKS {
         let senc = CkksShareEnc { enc: CKKSEncoder::new(ctx.clone()), id: *ct1.parms_id(), scale: ct1.scale() };
         let samp = CkksShareSampler { slots: n / 2 };
-        let shares = c2s_stage(cx, rep, su, &parties, &ct1, &samp, &senc, hist, check, &fp_c64, &mut out);
+        let shares = c2s_stage(cx, rep, su, &parties, &ct1, &samp, &senc, hist, check, &fp_c64, &mut out, "cipher_to_shares", 10);
         let have: Option<Vec<Vec<C64>>> = shares.as_ref().and_then(|v| v.iter().cloned().collect());
         if let (true, Some(sh)) = (check, have.as_ref()) {
             let sum: Vec<C64> = (0..n / 2).map(|j| sh.iter().map(|s| s[j]).sum()).collect();
@@ -765,7 +765,7 @@ fn run_once(cx: &Cx, rep: &mut Report, su: &Setup, hist: &Hist, check: bool) -> 
         let made = lib(|| (BFVShareSampler::new(ctx.clone()), BFVSimdShareEncoder::new(ctx.clone())));
         if let Ok((samp, senc)) = made {
             let t = su.t;
-            let shares = c2s_stage(cx, rep, su, &parties, &ct1, &samp, &senc, hist, check, &|s: &Vec<u64>| s.clone(), &mut out);
+            let shares = c2s_stage(cx, rep, su, &parties, &ct1, &samp, &senc, hist, check, &|s: &Vec<u64>| s.clone(), &mut out, "cipher_to_shares", 10);
             let have: Option<Vec<Vec<u64>>> = shares.as_ref().and_then(|v| v.iter().cloned().collect());
             let pre = exact_pre(su, ct1.parms_id(), b_fresh + ERR * npf + npf);
             if let (true, Some(sh)) = (check, have.as_ref()) {
@@ -804,22 +804,67 @@ fn run_once(cx: &Cx, rep: &mut Report, su: &Setup, hist: &Hist, check: bool) -> 
             }
         } else if check { rep.note("share sampler/encoder could not be constructed"); }
     }
+    // ---- 9. the same three protocols on a ciphertext one level down the chain (in BGV it carries a correction factor != 1)
+    if let Some(ctl) = &ct_low {
+        if let Some(new_sks) = &new_sks {
+            let outs = stage!("key_switch:level_down", 12, parties.iter().zip(new_sks.iter()).map(|(p, s)| p.key_switch(ctl, s)).collect::<Vec<_>>(), fp_ct, true);
+            if let (true, Some(c)) = (check, outs[0].as_ref()) {
+                match sum_secret(su, new_sks) { Ok(tsec) => check_ct(cx, rep, su, &tsec, c, &exp1, "key_switch:level_down", b_low + ERR * npf), Err(e) => rep.note(&format!("target secret malformed: {}", e)) }
+            }
+        }
+        if let Some((tsk, tpk)) = &target {
+            let outs = stage!("public_key_switch:level_down", 13, parties.iter().map(|p| p.public_key_switch(ctl, tpk)).collect::<Vec<_>>(), fp_ct, true);
+            if let (true, Some(c)) = (check, outs[0].as_ref()) {
+                match sum_secret(su, std::slice::from_ref(tsk)) { Ok(tsec) => check_ct(cx, rep, su, &tsec, c, &exp1, "public_key_switch:level_down", b_low + ERR * npf * (2.0 * nf + 1.0)), Err(e) => rep.note(&format!("target secret malformed: {}", e)) }
+            }
+        }
+        if scheme == SchemeType::CKKS {
+            let senc = CkksShareEnc { enc: CKKSEncoder::new(ctx.clone()), id: *ctl.parms_id(), scale: ctl.scale() };
+            let samp = CkksShareSampler { slots: n / 2 };
+            let shares = c2s_stage(cx, rep, su, &parties, ctl, &samp, &senc, hist, check, &fp_c64, &mut out, "cipher_to_shares:level_down", 14);
+            let have: Option<Vec<Vec<C64>>> = shares.as_ref().and_then(|v| v.iter().cloned().collect());
+            if let (true, Some(sh)) = (check, have.as_ref()) {
+                let sum: Vec<C64> = (0..n / 2).map(|j| sh.iter().map(|s| s[j]).sum()).collect();
+                let tol = ckks_tol(su, ctl.parms_id(), b_low + ERR * npf + npf, ctl.scale(), npf + 2.0) + npf * ckks_fp_tolerance(n, su.data_qs.len(), 2.0, ctl.scale());
+                let err = slot_err(&sum, &su.z1);
+                rep.max("ckks_error_over_tolerance|cipher_to_shares:level_down", err / tol);
+                if !(err <= tol) { viol(cx, rep, "cipher_to_shares:level_down", &cls, "value", format!("sum of shares differs from the plaintext slots by {:e} > tolerance {:e}", err, tol)); }
+            }
+        } else if let Ok((samp, senc)) = lib(|| (BFVShareSampler::new(ctx.clone()), BFVSimdShareEncoder::new(ctx.clone()))) {
+            let t = su.t;
+            let shares = c2s_stage(cx, rep, su, &parties, ctl, &samp, &senc, hist, check, &|s: &Vec<u64>| s.clone(), &mut out, "cipher_to_shares:level_down", 14);
+            let have: Option<Vec<Vec<u64>>> = shares.as_ref().and_then(|v| v.iter().cloned().collect());
+            let pre = exact_pre(su, ctl.parms_id(), b_low + ERR * npf + npf);
+            if let (true, Some(sh)) = (check, have.as_ref()) {
+                if !pre { rep.out_of_precondition += 1; } else if sh.iter().any(|s| s.len() != n) {
+                    viol(cx, rep, "cipher_to_shares:level_down", &cls, "shape", format!("share lengths {:?}", sh.iter().map(|s| s.len()).collect::<Vec<_>>()));
+                } else {
+                    let sum: Vec<u64> = (0..n).map(|j| sh.iter().fold(0u64, |a, s| refm::addmod(a, s[j] % t, t))).collect();
+                    if sum != su.v1 {
+                        let k = sum.iter().zip(&su.v1).position(|(a, b)| a != b).unwrap_or(0);
+                        let nd = sum.iter().zip(&su.v1).filter(|(a, b)| a != b).count();
+                        viol(cx, rep, "cipher_to_shares:level_down", &cls, "value", format!("sum of shares mod t differs from the plaintext in {} of {} slots, first slot {}: {} expected {} (input correction factor {})", nd, n, k, sum[k], su.v1[k], ctl.correction_factor()));
+                    }
+                }
+            }
+        }
+    }
     out.draws = heathcliff::verif::thread_entropy_draws();
     out
 }
 
 /// cipher -> shares: parties 1.. send, party 0 receives in history order, everybody finishes
 fn c2s_stage<S, E>(cx: &Cx, rep: &mut Report, su: &Setup, parties: &[Participant], ct: &Ciphertext, samp: &S, senc: &E, hist: &Hist, check: bool,
-    fp: &dyn Fn(&S::Share) -> Vec<u64>, out: &mut RunOut) -> Option<Vec<Option<S::Share>>>
+    fp: &dyn Fn(&S::Share) -> Vec<u64>, out: &mut RunOut, label: &str, order_id: u64) -> Option<Vec<Option<S::Share>>>
 where S: ShareSampler, E: ShareEncoder<Share = S::Share> {
-    let label = "cipher_to_shares"; let np = su.np; let sname = su.spec.scheme_name();
+    let np = su.np; let sname = su.spec.scheme_name();
     let mut protos = match lib(|| parties.iter().map(|p| p.cipher_to_shares(ct.clone(), samp, senc)).collect::<Vec<_>>()) {
         Ok(x) => x, Err(p) => { upfront(cx, rep, su, label, &p.0, check); out.stages.push((label.into(), vec![])); return None; }
     };
     let senders: Vec<usize> = (1..np).collect();
     let r = (|| -> Result<(), NetFail> {
         let m = collect_msgs(&protos, &senders, &|p: &CipherToSharesProtocol<S::Share>, w: &mut Vec<u8>| p.send(w))?;
-        deliver(&mut protos, &m, &[0], &|r| hist.order(10, 0, r), &|_, _| false, &|p: &mut CipherToSharesProtocol<S::Share>, s: usize, r: &mut &[u8]| p.receive(s, r))?;
+        deliver(&mut protos, &m, &[0], &|r| hist.order(order_id, 0, r), &|_, _| false, &|p: &mut CipherToSharesProtocol<S::Share>, s: usize, r: &mut &[u8]| p.receive(s, r))?;
         Ok(())
     })();
     if let Err(f) = r { net_fail(cx, rep, su, label, &f, check); out.stages.push((label.into(), vec![None; np])); return None; }
